@@ -326,7 +326,7 @@ type c41Bundle struct {
 
 func c41NewBundle(c c41Call) *c41Bundle {
 	b := &c41Bundle{srv: c41NewServer()}
-	if c.F == "e" || c.F == "i" || c.F == "j" {
+	if c.F == "e" || c41ExtIn(c.F) {
 		b.store = &c41Store{objs: map[string][]byte{}}
 		cfg := &vgirpc.ExternalLocationConfig{
 			ExternalizeThresholdBytes: 1, URLValidator: nil, MaxRetries: 1, RetryDelay: time.Nanosecond,
@@ -358,7 +358,7 @@ func c41NewBundle(c c41Call) *c41Bundle {
 
 func c41BundleKey(c c41Call) string {
 	k := c.T
-	if c.F == "e" || c.F == "i" || c.F == "j" {
+	if c.F == "e" || c41ExtIn(c.F) {
 		k += c.F
 	}
 	if c.E == "v" || c.E == "C" {
@@ -452,12 +452,66 @@ func c41InputSchema(c c41Call) *arrow.Schema {
 	return c41InSchema
 }
 
-// c41Pointer builds an external-location pointer batch; good=false points at
-// nothing (resolve failure).
-func c41Pointer(b *c41Bundle, schema *arrow.Schema, inner arrow.RecordBatch, good bool, extra [][2]string) arrow.RecordBatch {
+// c41ExtIn: the features whose inputs are external-location pointers.
+func c41ExtIn(f string) bool { return f != "" && strings.Contains("ijabdgy", f) }
+
+func c41LogBatch(schema *arrow.Schema) arrow.RecordBatch {
+	zero := c41Batch(schema, make([][]int64, schema.NumFields()))
+	defer zero.Release()
+	return c41WithMeta(zero, [][2]string{{vgirpc.MetaLogLevel, "INFO"}, {vgirpc.MetaLogMessage, "payload log"}})
+}
+
+// c41Payload builds the bytes a pointer's URL serves, by payload shape (feature):
+//
+//	i, j  one well-formed stream with the data batch
+//	a     the same with the 8-byte end-of-stream marker cut to 1 + variant%3 bytes
+//	b     the stream WITHOUT its end-of-stream marker followed by a second
+//	      complete stream (a schema message arrives where a batch belongs)
+//	d     log batch, a decoy data batch, the data batch (the last one wins)
+//	g, y  well-formed for the good pointers; the FAILING pointer (good=false)
+//	      serves data batch + location pointer (g: redirect loop, detected after
+//	      a batch was decoded and retained) or a log batch only (y: no data batch)
+//
+// ok=false: there is nothing to serve (the pointer will name a missing object).
+func c41Payload(f string, variant int, inner arrow.RecordBatch, good bool) (data []byte, ok bool) {
+	schema := inner.Schema()
+	full := c41IPC(inner)
+	if !good {
+		switch f {
+		case "g":
+			inner.Retain()
+			zero := c41Batch(schema, make([][]int64, schema.NumFields()))
+			ptr := c41WithMeta(zero, [][2]string{{vgirpc.MetaLocation, "https://c41.mem/elsewhere"}})
+			zero.Release()
+			return c41Stream(schema, []arrow.RecordBatch{inner, ptr}), true
+		case "y":
+			return c41Stream(schema, []arrow.RecordBatch{c41LogBatch(schema)}), true
+		}
+		return nil, false
+	}
+	switch f {
+	case "a":
+		return full[:len(full)-8+1+variant%3], true
+	case "b":
+		return append(append([]byte(nil), full[:len(full)-8]...), full...), true
+	case "d":
+		cols := make([][]int64, schema.NumFields())
+		for i := range cols {
+			cols[i] = []int64{99}
+		}
+		inner.Retain()
+		return c41Stream(schema, []arrow.RecordBatch{c41LogBatch(schema), c41Batch(schema, cols), inner}), true
+	}
+	return full, true
+}
+
+// c41Pointer builds an external-location pointer batch for inner, whose payload
+// has the shape of feature f; good=false makes the resolution fail.
+func c41Pointer(b *c41Bundle, f string, variant int, inner arrow.RecordBatch, good bool, extra [][2]string) arrow.RecordBatch {
+	schema := inner.Schema()
 	url := "https://c41.mem/missing"
-	if good {
-		url, _ = b.store.Upload(c41IPC(inner), nil, "")
+	if data, ok := c41Payload(f, variant, inner, good); ok {
+		url, _ = b.store.Upload(data, nil, "")
 	}
 	inner.Release()
 	cols := make([][]int64, schema.NumFields())
@@ -505,8 +559,8 @@ func c41Request(c c41Call, b *c41Bundle, seg *vgirpc.ShmSegment) []byte {
 	}
 	var wire arrow.RecordBatch
 	switch {
-	case (c.F == "i" || c.F == "j") && c.T == "H":
-		wire = c41Pointer(b, params.Schema(), params, !(c.E == "r" && c.K != "X"), meta)
+	case c41ExtIn(c.F) && c.T == "H":
+		wire = c41Pointer(b, c.F, c.Pre, params, !(c.E == "r" && c.K != "X"), meta)
 	case c.F == "s" && (c.K == "U" || c.K == "V"):
 		wire = c41ShmPointer(seg, params, c.E != "r", meta)
 	default:
@@ -531,8 +585,8 @@ func c41TurnInput(c c41Call, b *c41Bundle, seg *vgirpc.ShmSegment, i int, last b
 	data := c41Batch(schema, [][]int64{{int64(10 + i)}})
 	bad := last && c.E == "r"
 	switch {
-	case c.F == "i" || c.F == "j":
-		return c41Pointer(b, schema, data, !bad, extra)
+	case c41ExtIn(c.F):
+		return c41Pointer(b, c.F, i, data, !bad, extra)
 	case c.F == "s":
 		return c41ShmPointer(seg, data, !bad, extra)
 	}
@@ -809,6 +863,20 @@ func c41Gen(r *rand.Rand, n int, tier string) []c41In {
 	// 1. the sweep (always run, whatever n is): every path class as a one-call
 	//    history with pre=0 (so a failing class replays as a single call), then
 	//    every class again with pre=2 packed into histories of 12 calls.
+	// 0. boundary cases first: the external-payload shapes whose tail is damaged
+	//    AFTER a complete batch (a: end-of-stream marker cut to 1, 2, 3 bytes;
+	//    b: stray schema message), the multi-batch payload and the two
+	//    late-refusal payloads, on every route that resolves a pointer (HTTP
+	//    unary / void / stream-init params, HTTP and pipe exchange input), as
+	//    one-call histories with 0, 1 and 2 prior turns (the cut size of a
+	//    request pointer is 1 + pre%3, of exchange input i it is 1 + i%3).
+	for _, pre := range []int{1, 0, 2} {
+		for _, cl := range classes {
+			if strings.Contains("abdgy", cl[3:4]) && (pre == 1 || cl[2:3] == "o" || cl[2:3] == "r") {
+				out = append(out, c41In{Calls: []c41Call{{T: cl[0:1], K: cl[1:2], E: cl[2:3], F: cl[3:4], Pre: pre}}})
+			}
+		}
+	}
 	for _, cl := range classes {
 		out = append(out, c41In{Calls: []c41Call{{T: cl[0:1], K: cl[1:2], E: cl[2:3], F: cl[3:4], Pre: 0}}})
 	}
